@@ -1,5 +1,6 @@
 """C12 - Histogram and graph arithmetic, scaling and conversions keep every cell."""
 import copy
+import math
 import itertools
 from fractions import Fraction
 
@@ -248,8 +249,19 @@ def add_case(draw):
         b = draw(hist_spec())
         if len(b["edges"]) == dim:
             rel = "random"
+    # the magnitude of the edges (the comparison is relative by default), edges one ulp apart
+    # (close by the documented tolerance) and explicit tolerances
+    mag = draw(st.sampled_from([None, None, None, 1e-10, 1e8, 3e-7]))
+    if mag is not None and rel in ("same", "shifted"):
+        for h in (a, b):
+            h["edges"] = [[x * mag for x in e] for e in h["edges"]]
+    ulp = None
+    if rel == "same" and draw(st.integers(0, 3)) == 0:
+        d = draw(st.integers(0, dim - 1))
+        ulp = [d, draw(st.integers(0, len(b["edges"][d]) - 1)), draw(st.sampled_from([1, -1, 3]))]
+    tols = draw(st.sampled_from([None, None, None, [0.0, 1e-9], [0.3, 0.0], [1e-12, 0.0], [0.0, 0.5], [0.0, 0.0]]))
     return {"a": a, "b": b, "rel": rel, "w": draw(st.sampled_from([1, 1, -1, 2, 0.5, -2.5, 0])),
-            "explicit_w": draw(st.booleans()), "prescale": draw(st.booleans())}
+            "explicit_w": draw(st.booleans()), "prescale": draw(st.booleans()), "ulp": ulp, "tols": tols}
 
 
 def judge_add(case):
@@ -263,7 +275,25 @@ def judge_add(case):
         except LenaTypeError:
             return {"nontrivial": False, "classes": ["nonhist"]}
         raise Violation("histogram-add-accepts-non-histogram", "")
-    equal_edges = a["edges"] == b["edges"]
+    if case.get("ulp"):
+        # move one edge of b by a few ulps (keeping the order of the edges)
+        d, i, k = case["ulp"]
+        e = b["edges"][d]
+        x = float(e[i])
+        for _ in range(abs(k)):
+            x = math.nextafter(x, math.inf if k > 0 else -math.inf)
+        if (i == 0 or e[i - 1] < x) and (i + 1 == len(e) or x < e[i + 1]):
+            e[i] = x
+            hb = mk_hist(b)
+            sb = (copy.deepcopy(hb.bins), copy.deepcopy(hb.edges), hb.n_out_of_range)
+    # "the same edges, compared approximately using math.isclose with edges_abs_tol and edges_rel_tol"
+    abs_tol, rel_tol = case.get("tols") or (0.0, 1e-9)
+    same_shape = [len(e) for e in a["edges"]] == [len(e) for e in b["edges"]]
+    equal_edges = same_shape and all(math.isclose(x, y, rel_tol=rel_tol, abs_tol=abs_tol)
+                                     for ea, eb in zip(a["edges"], b["edges"]) for x, y in zip(ea, eb))
+    kw = {}
+    if case.get("tols"):
+        kw = {"edges_abs_tol": abs_tol, "edges_rel_tol": rel_tol}
     # the operands may have had their scale computed (and cached) before
     if case.get("prescale"):
         for h in (ha, hb):
@@ -272,7 +302,7 @@ def judge_add(case):
             except LenaValueError:
                 pass
     try:
-        res = ha.add(hb, w) if (case["explicit_w"] or w != 1) else ha.add(hb)
+        res = ha.add(hb, w, **kw) if (case["explicit_w"] or w != 1) else ha.add(hb, **kw)
     except LenaValueError:
         if equal_edges:
             raise Violation("histogram-add-rejects-equal-edges", "%s" % short(case))
@@ -560,7 +590,9 @@ def judge_csv(case):
 @st.composite
 def graph_spec(draw):
     dim = draw(st.integers(1, 3))
-    names = draw(st.sampled_from([["x", "y", "z"], ["E", "time", "v"], ["x", "xy", "y"], ["a", "b", "c"]]))[:dim]
+    names = draw(st.sampled_from([["x", "y", "z"], ["E", "time", "v"], ["x", "xy", "y"], ["a", "b", "c"],
+                                   # a later coordinate whose name is a proper prefix of an earlier one
+                                   ["time", "t", "ti"], ["xs", "y", "x"], ["ab", "a", "abc"], ["yy", "y", "x"]]))[:dim]
     errs = []
     for _ in range(draw(st.integers(0, 3))):
         c = draw(st.sampled_from(names))
